@@ -8,6 +8,7 @@ C / F / strided layouts, list vs array index arguments and callbacks that return
 the skeleton predicts; plus write-after-return probes; plus direct calls of every library routine the translation
 classified as fresh.  It validates the translator's fresh / view tables and is the failing-input search."""
 import ast
+import re
 import inspect
 import io
 import itertools
@@ -443,6 +444,8 @@ def recipes(tn, E, only=None):
     add('rand_custom', 'f returns a view of its own buffer', E.idx([3, 4, 3]), E.idx([1, 2, 2, 1]), lambda sz: _buf[:sz])
     add('rand_norm', 'plain', E.idx([3, 4, 3]), 2, seed=1)
     add('rand_stab', 'plain', E.idx([3, 4, 3]), 2, seed=1)
+    add('rand_stab', 'rank list', E.idx([3, 4, 3]), E.idx([1, 2, 3, 1]), seed=1)
+    add('rand_norm', 'rank list', E.idx([3, 4, 3]), E.idx([1, 2, 3, 1]), seed=1)
     add('full_matrix', 'q=3', Ym)
     for ip in (False, True):
         add('orthogonalize_left', f'inplace={ip}', E.tt(n3, 2, 23), 0, inplace=ip)
@@ -629,15 +632,164 @@ def run_case(tn, g, name, label, args, kw, probes=True, tolerant=False):
     return viol, dict(pred=pred)
 
 
+# ----------------------------------------------------------------------------------------------------------------
+# derived recipe family: identity conversions
+# ----------------------------------------------------------------------------------------------------------------
+# teneva normalises option / index / point arguments with np.asanyarray / asarray / ascontiguousarray / grid_prep_opt(s):
+# when the caller's array already has the target dtype and C layout the conversion is the identity and the function works
+# on the caller's own memory.  Every base recipe is therefore re-run with every numeric argument given as a C-contiguous
+# ndarray of dtype int64 (integral values) or float64, optionally with scalar options written out as arrays of length d, and
+# optionally with batch arguments (points / multi-indices) reduced to a single point.  Calls that raise are tolerated (the
+# arguments are compared all the same).
+SINGLE_PARAMS = {'X', 'I', 'i', 'x', 'X_trn', 'I_trn', 'X_vld', 'I_vld', 'I_data', 'X_data', 'I_qtt', 'I_tt'}
+DERIVED_MODES = [(dt, arr, single) for single in (False, True) for arr in (False, True) for dt in ('i', 'f')]
+
+
+def _is_num(x):
+    return isinstance(x, (int, float, np.integer, np.floating)) and not isinstance(x, (bool, np.bool_))
+
+
+def _numeric_nested(v):
+    """rectangular nested list / tuple of numbers?"""
+    if not isinstance(v, (list, tuple)) or not v:
+        return False
+    try:
+        a = np.array(v)
+    except Exception:
+        return False
+    return a.dtype != object and a.dtype.kind in 'iuf' and not any(isinstance(x, np.ndarray) for x in v)
+
+
+def _exact(v, dt):
+    a = np.asarray(v)
+    if dt == 'i' and a.dtype.kind in 'iuf' and a.size and np.all(np.isfinite(a)) and np.all(a == np.rint(a)):
+        return np.array(a, dtype=np.int64, order='C')
+    return np.array(a, dtype=np.float64, order='C')
+
+
+def _dimension(bound):
+    for v in bound.values():
+        if isinstance(v, list) and v and all(isinstance(x, np.ndarray) and x.ndim == 3 for x in v):
+            return len(v)
+    for k, v in bound.items():
+        if k in SINGLE_PARAMS and (isinstance(v, np.ndarray) or _numeric_nested(v)):
+            a = np.asarray(v)
+            if a.ndim in (1, 2):
+                return a.shape[-1]
+    for v in bound.values():
+        if (isinstance(v, np.ndarray) and v.dtype != object and v.ndim == 1) or _numeric_nested(v):
+            a = np.asarray(v)
+            if a.ndim == 1:
+                return a.shape[0]
+    d = bound.get('d')
+    return int(d) if _is_num(d) else None
+
+
+def derive(tn, g, name, args, kw, mode):
+    """(args', kw', signature) of the derived call, or None when the function signature does not bind"""
+    dt, arrayify, single = mode
+    f = getattr(tn, name)
+    try:
+        sig = inspect.signature(f)
+        ba = sig.bind(*args, **kw)
+    except Exception:
+        return None
+    bound = dict(ba.arguments)
+    d = _dimension(bound)
+    ex = g.pkg.exports.get(name)
+    info = g.pkg.funcs.get(ex[1]) if ex else None
+    doct = info.doctypes if info else {}
+    signature = []
+
+    def tr(k, v, top=True):
+        if isinstance(v, np.ndarray) and v.dtype != object and v.dtype.kind in 'iuf':
+            if v.ndim >= 3:
+                return v
+            a = _exact(v, dt)
+            if single and top and k in SINGLE_PARAMS and a.ndim == 2:
+                a = np.array(a[0], order='C')
+            return a
+        if _numeric_nested(v):
+            return tr(k, np.array(v), top)
+        if isinstance(v, (list, tuple)) and v and all(isinstance(x, np.ndarray) and x.ndim <= 2 for x in v) and top:
+            return type(v)(tr(k, x, False) for x in v) if isinstance(v, tuple) else [tr(k, x, False) for x in v]
+        if top and arrayify and _is_num(v) and d and k in doct and re.search(r'list|ndarray', doct[k][0]):
+            return _exact(np.full(d, v), dt)
+        return v
+    for k in list(ba.arguments):
+        par = sig.parameters[k]
+        if par.kind in (par.VAR_POSITIONAL, par.VAR_KEYWORD):
+            continue
+        nv = tr(k, ba.arguments[k])
+        ba.arguments[k] = nv
+        if isinstance(nv, np.ndarray) and nv.ndim <= 2:
+            signature.append((k, str(nv.dtype), nv.shape, nv.flags['C_CONTIGUOUS']))
+        elif isinstance(nv, (list, tuple)) and nv and all(isinstance(x, np.ndarray) and x.ndim <= 2 for x in nv):
+            signature.append((k, tuple(str(x.dtype) for x in nv)))
+        elif _is_num(nv):
+            signature.append((k, 'num'))
+    return list(ba.args), dict(ba.kwargs), tuple(signature)
+
+
+def _same_as_base(sig, args, kw, tn, name):
+    """the derived call passes exactly the kinds of values the base call passes (nothing to add)"""
+    ba = inspect.signature(getattr(tn, name)).bind(*args, **kw).arguments
+    for x in sig:
+        v = ba.get(x[0])
+        if len(x) == 4:
+            if not (isinstance(v, np.ndarray) and str(v.dtype) == x[1] and v.shape == x[2] and v.flags['C_CONTIGUOUS']):
+                return False
+        elif x[1:] == ('num',):
+            if not _is_num(v):
+                return False
+        else:
+            if not (isinstance(v, (list, tuple)) and all(isinstance(y, np.ndarray) for y in v)
+                    and tuple(str(y.dtype) for y in v) == x[1] and all(y.flags['C_CONTIGUOUS'] for y in v)):
+                return False
+    return True
+
+
+def mode_label(mode):
+    dt, arrayify, single = mode
+    return ('exact ' + ('int64' if dt == 'i' else 'float64') + ' C arrays' + (', scalar options as arrays' if arrayify else '')
+            + (', single point' if single else ''))
+
+
+def conversion_sites(g):
+    """(exported function, parameter) pairs the source passes directly through an identity-capable conversion"""
+    conv = {'asanyarray', 'asarray', 'ascontiguousarray', 'asfortranarray', 'atleast_1d', 'atleast_2d'}
+    out = {}
+    for nm, (what, q) in g.pkg.exports.items():
+        if what != 'func' or nm.startswith('_'):
+            continue
+        info = g.pkg.funcs[q]
+        for n in ast.walk(info.node):
+            if not isinstance(n, ast.Call):
+                continue
+            fn = n.func.attr if isinstance(n.func, ast.Attribute) else getattr(n.func, 'id', None)
+            if fn in conv and n.args and isinstance(n.args[0], ast.Name) and n.args[0].id in info.params:
+                dtk = [ast.unparse(k.value) for k in n.keywords if k.arg == 'dtype']
+                out[(nm, n.args[0].id)] = {'int': 'int64', 'float': 'float64'}.get(dtk[0] if dtk else None)
+            if fn == 'grid_prep_opts':
+                for pos, t in ((0, 'float64'), (1, 'float64'), (2, 'int64')):
+                    if pos < len(n.args) and isinstance(n.args[pos], ast.Name) and n.args[pos].id in info.params:
+                        out[(nm, n.args[pos].id)] = t
+            if fn == 'grid_prep_opt' and n.args and isinstance(n.args[0], ast.Name) and n.args[0].id in info.params:
+                kd = ast.unparse(n.args[2]) if len(n.args) > 2 else 'float'
+                out[(nm, n.args[0].id)] = {'int': 'int64', 'float': 'float64'}.get(kd)
+    return out
+
+
 LAYOUTS = [('C', False), ('F', False), ('S', False), ('C', True)]
 
 
-def footprint(R, ctx, names=None, seeds=(1,), probes=True):
+def footprint(R, ctx, names=None, seeds=(1,), probes=True, derived=True):
     tn = C.import_teneva()
     g = gen()
     exported = sorted(nm for nm, (what, q) in g.pkg.exports.items())
     public = [nm for nm, (what, q) in sorted(g.pkg.exports.items()) if what == 'func' and not nm.startswith('_')]
     fails, ncalls, recipe_errors, covered = [], 0, [], set()
+    exact_seen = set()      # (function, parameter, dtype) called with a C-contiguous ndarray of that dtype
     dist = dict(layouts={}, functions=0)
     skipped = {}
     for seed in seeds:
@@ -663,6 +815,12 @@ def footprint(R, ctx, names=None, seeds=(1,), probes=True):
                         dist['raised'] = dist.get('raised', 0) + 1
                     else:
                         covered.add(name)
+                        try:
+                            for k, v in inspect.signature(getattr(tn, name)).bind(*args, **kw).arguments.items():
+                                if isinstance(v, np.ndarray) and v.dtype != object and v.flags['C_CONTIGUOUS']:
+                                    exact_seen.add((name, k, str(v.dtype)))
+                        except TypeError:
+                            pass
                     key = f'{layout}{"/lists" if aslist else ""}'
                     dist['layouts'][key] = dist['layouts'].get(key, 0) + 1
                     if R is not None:
@@ -670,7 +828,45 @@ def footprint(R, ctx, names=None, seeds=(1,), probes=True):
                     for v in viol:
                         v['input'] = dict(function=name, case=label, layout=layout, index_args_as_lists=aslist, seed=seed)
                         (recipe_errors if v.get('recipe_error') else fails).append(v)
+                    if layout != 'C' or aslist or not derived:
+                        continue
+                    # identity-conversion family (see above)
+                    dv0 = derive(tn, g, name, args, kw, DERIVED_MODES[0])
+                    if dv0 is None:
+                        continue
+                    seen_sig = set()
+                    for mode in DERIVED_MODES:
+                        with contextlib.redirect_stdout(io.StringIO()), warnings.catch_warnings():
+                            warnings.simplefilter('ignore')
+                            label, args, kw = recipes(tn, Env(tn, layout, aslist, seed), only=name)[name][ci]
+                        dv = derive(tn, g, name, args, kw, mode)
+                        if dv is None or dv[2] in seen_sig:
+                            continue
+                        seen_sig.add(dv[2])
+                        if _same_as_base(dv[2], args, kw, tn, name):
+                            continue
+                        dlabel = f'{label} | {mode_label(mode)}'
+                        viol, inf = run_case(tn, g, name, dlabel, dv[0], dv[1], probes, tolerant=True)
+                        ncalls += 1
+                        dist['derived'] = dist.get('derived', 0) + 1
+                        if inf.get('raised'):
+                            dist['derived_raised'] = dist.get('derived_raised', 0) + 1
+                        else:
+                            for x in dv[2]:
+                                if len(x) == 4 and x[3]:
+                                    exact_seen.add((name, x[0], x[1]))
+                        if R is not None:
+                            R.add_distinct((name, dlabel, layout, seed))
+                        for v in viol:
+                            v['input'] = dict(function=name, case=label, derived=list(mode), layout=layout,
+                                              index_args_as_lists=aslist, seed=seed)
+                            (recipe_errors if v.get('recipe_error') else fails).append(v)
     dist['functions'] = len(covered)
+    sites = conversion_sites(g)
+    dist['conversion_sites'] = len(sites)
+    dist['conversion_sites_not_reached_with_an_exact_array'] = sorted(
+        f'{nm}.{p}' for (nm, p), t in sites.items() if (names is None or nm in names)
+        and not any(a == nm and b == p and (t is None or c == t) for a, b, c in exact_seen))
     uncovered = [nm for nm in public if nm not in covered]
     return fails, recipe_errors, ncalls, dist, uncovered, skipped
 
@@ -904,7 +1100,10 @@ def replay(data):
     E = Env(tn, inp['layout'], inp['index_args_as_lists'], inp['seed'])
     for label, args, kw in recipes(tn, E)[inp['function']]:
         if label == inp['case']:
-            viol, _ = run_case(tn, g, inp['function'], label, args, kw)
+            if inp.get('derived'):
+                dv = derive(tn, g, inp['function'], args, kw, tuple(inp['derived']))
+                label, args, kw = f'{label} | {mode_label(tuple(inp["derived"]))}', dv[0], dv[1]
+            viol, _ = run_case(tn, g, inp['function'], label, args, kw, tolerant=bool(inp.get('derived')))
             for v in viol:
                 print('replayed:', v['what'])
             return 1 if viol else 0
